@@ -1,6 +1,7 @@
 package rules
 
 import (
+	"os"
 	"fmt"
 	"go/constant"
 	"go/types"
@@ -61,6 +62,12 @@ func (c *Ctx) reachPred(rootNames []string, pkgs ...string) func(*ssa.Function) 
 	for f := range reach {
 		set[core.Origin(f)] = true
 	}
+	if os.Getenv("GMCHECK_REACH_DEBUG") != "" {
+		fmt.Printf("reachPred: %d root names, %d root instances, %d reached\n", len(rootNames), len(roots), len(set))
+		for f := range set {
+			fmt.Printf("   %s\n", core.FnName(f))
+		}
+	}
 	return func(fn *ssa.Function) bool {
 		f := core.Origin(fn)
 		for f.Parent() != nil {
@@ -68,6 +75,75 @@ func (c *Ctx) reachPred(rootNames []string, pkgs ...string) func(*ssa.Function) 
 		}
 		return set[f]
 	}
+}
+
+// reachFromTypes: the functions of pkg reachable (call graph) from the methods of
+// the named (exported) types of pkg and from the named functions - a scope that
+// follows code into helpers, generic functions and renamed internals.
+func (c *Ctx) reachFromTypes(pkg string, typeNames []string, funcNames ...string) func(*ssa.Function) bool {
+	var roots []string
+	want := map[string]bool{}
+	for _, t := range typeNames {
+		want[t] = true
+	}
+	for _, fn := range c.Funcs() {
+		if !inPkgs(fn, pkg) || fn.Parent() != nil {
+			continue
+		}
+		if want[recvTypeName(core.FnName(fn))] {
+			roots = append(roots, core.FnName(fn))
+		}
+	}
+	for _, f := range funcNames {
+		roots = append(roots, pkg+"."+f)
+	}
+	return c.reachPred(roots, pkg)
+}
+
+// implementersOf: the named types of pkg that implement the interface type of
+// the given field of an exported struct of pkg (e.g. the palette kinds).
+func (c *Ctx) implementersOf(pkg, structName string, isIface func(*types.Var) bool) []string {
+	pk := c.P.Pkg(pkg)
+	if pk == nil {
+		return nil
+	}
+	tn, _ := pk.Types.Scope().Lookup(structName).(*types.TypeName)
+	if tn == nil {
+		return nil
+	}
+	st, _ := tn.Type().Underlying().(*types.Struct)
+	if st == nil {
+		return nil
+	}
+	var out []string
+	for i := 0; i < st.NumFields(); i++ {
+		f := st.Field(i)
+		it, ok := f.Type().Underlying().(*types.Interface)
+		if !ok || !isIface(f) {
+			continue
+		}
+		for _, name := range pk.Types.Scope().Names() {
+			cand, ok := pk.Types.Scope().Lookup(name).(*types.TypeName)
+			if !ok || cand == tn {
+				continue
+			}
+			if _, isI := cand.Type().Underlying().(*types.Interface); isI {
+				continue
+			}
+			// generic types: compare method names (instantiation-independent)
+			ms := types.NewMethodSet(types.NewPointer(cand.Type()))
+			all := it.NumMethods() > 0
+			for j := 0; j < it.NumMethods(); j++ {
+				if ms.Lookup(cand.Pkg(), it.Method(j).Name()) == nil {
+					all = false
+				}
+			}
+			if all {
+				out = append(out, name)
+			}
+		}
+	}
+	return out
 }
 
 // rootMissing turns an unresolved root into a failing obligation.
